@@ -45,6 +45,15 @@ func main() {
 		}
 		must(os.MkdirAll(*out, 0o755))
 		rep := fn(*out, seed, *tier, *replay)
+		seenPanic := map[string]bool{}
+		for _, pe := range panicsSeen {
+			k := pe.op + fmt.Sprint(pe.v)
+			if seenPanic[k] || len(seenPanic) >= 8 {
+				continue
+			}
+			seenPanic[k] = true
+			rep.fail(map[string]interface{}{"call": pe.op, "arguments": pe.args}, "the call returns a value or an error", fmt.Sprint("panic: ", pe.v), pe.op+" panics")
+		}
 		must(rep.write(*out))
 	default:
 		os.Exit(2)
